@@ -21,6 +21,7 @@ theorem visit_eq_owned : ∀ s : Shape, unborrowed s = true → visit s = owned 
     simp only [unborrowed, Bool.and_eq_true, Bool.not_eq_true'] at h
     simp only [visit, owned, h.1]
     exact visit_eq_owned s h.2
+  | .cellShared s, h => by simp [unborrowed] at h
 theorem visitL_eq_ownedL : ∀ l : List Shape, unborrowedL l = true → visitL l = ownedL l
   | [], _ => rfl
   | s :: r, h => by
@@ -53,6 +54,7 @@ theorem visit_sub_owned : ∀ (s : Shape) (i : Nat), i ∈ visit s → i ∈ own
     cases b with
     | true => simp at h
     | false => exact visit_sub_owned s i (by simpa using h)
+  | .cellShared s, i, h => by simp [visit] at h
 theorem visitL_sub_ownedL : ∀ (l : List Shape) (i : Nat), i ∈ visitL l → i ∈ ownedL l
   | [], _, h => by simp [visitL] at h
   | s :: r, i, h => by
@@ -62,6 +64,35 @@ theorem visitL_sub_ownedL : ∀ (l : List Shape) (i : Nat), i ∈ visitL l → i
     · exact Or.inl (visit_sub_owned s i h)
     · exact Or.inr (visitL_sub_ownedL r i h)
 end
+
+/-- A `RefCell` with a shared borrow alive reports nothing either (`try_borrow_mut` fails). -/
+theorem shared_cell_reports_nothing (s : Shape) : visit (.cellShared s) = [] := by simp [visit]
+
+mutual
+/-- **`Finalize` forwards to each contained value exactly once**: the finalize traversal reaches exactly the owned `Cc`s, as long
+as no `RefCell` inside is mutably borrowed — a shared borrow does not stop it. -/
+theorem finVisit_eq_owned : ∀ s : Shape, notMutBorrowed s = true → finVisit s = owned s
+  | .cc _, _ => rfl
+  | .weak, _ | .cleaner, _ | .cleanable, _ | .phantom, _ | .prim, _ | .none, _ => rfl
+  | .tuple l, h | .arr l, h | .slice l, h | .vec l, h => by
+    simp only [finVisit, owned]; exact finVisitL_eq_ownedL l (by simpa [notMutBorrowed] using h)
+  | .box s, h | .some s, h | .ok s, h | .err s, h | .md s, h | .aus s, h => by
+    simp only [finVisit, owned]; exact finVisit_eq_owned s (by simpa [notMutBorrowed] using h)
+  | .cell b s, h => by
+    simp only [notMutBorrowed, Bool.and_eq_true, Bool.not_eq_true'] at h
+    simp only [finVisit, owned, h.1]
+    exact finVisit_eq_owned s h.2
+  | .cellShared s, h => by
+    simp only [finVisit, owned]; exact finVisit_eq_owned s (by simpa [notMutBorrowed] using h)
+theorem finVisitL_eq_ownedL : ∀ l : List Shape, notMutBorrowedL l = true → finVisitL l = ownedL l
+  | [], _ => rfl
+  | s :: r, h => by
+    simp only [notMutBorrowedL, Bool.and_eq_true] at h
+    simp only [finVisitL, ownedL, finVisit_eq_owned s h.1, finVisitL_eq_ownedL r h.2]
+end
+
+/-- A mutably borrowed `RefCell` is skipped by `finalize`. -/
+theorem mut_borrowed_cell_not_finalized (s : Shape) : finVisit (.cell true s) = [] := by simp [finVisit]
 
 /-- Non-vacuity: a two-level nesting with a borrowed and an unborrowed cell. -/
 example : visit (.tuple [.cc 0, .vec [.some (.cc 1), .none], .cell false (.box (.cc 2)), .cell true (.cc 3), .weak]) = [0, 1, 2] := by
